@@ -1,5 +1,6 @@
 (* C20 correspondence harness: evaluated by vm_compute on cases written by harness/py/checks/c20.py.
-   The SAME definitions (Model.final, Model.render, Model.run_chain) the theorems of Props.v are about. *)
+   The SAME definitions (Model.runR / Model.finalR -- the repaired manager --, Model.render, Model.run_chain) the
+   theorems of Props.v are about. *)
 From Miller Require Import Base.Record C20.Model.
 Open Scope Z_scope.
 
@@ -29,8 +30,8 @@ Fixpoint all_match (F : fmt) (fs : fstore) (obs : list (bytes * bytes)) : bool :
 Definition chk (c : Z * Z * Z * list (bytes * Z * record * bytes) * list (bytes * bytes) * list (bytes * bytes)) : bool :=
   let '(md, f, cap, ops, before, after) := c in
   let F := fmt_of f in
-  let m := run (mode_of md) (Z.to_nat cap) F (map op_of ops) (store_of before) in
-  negb (m_err m) && all_match F (close_all F m) after.
+  let m := runR (mode_of md) (Z.to_nat cap) F (map op_of ops) (store_of before) in
+  negb (r_err m) && all_match F (close_all F (Mgr (r_open m ++ r_susp m) [] (r_fs m) (r_err m))) after.
 
 (* tee-in-a-chain cases: (head count, delivered-cut, number of input records, observed tee count, observed main count);
    chain = tee then head n *)
